@@ -125,7 +125,7 @@ PROPS = {
     },
     "C03": {
         "level": "other",
-        "rules": [("PA", 1, None), ("DI", 0, None), ("DF", 1, has("VTreeManager", "label-tables")), ("TR", 0, has("repr::sdd", "builder::sdd")), ("CP", 32, has("builder::sdd::", "repr::sdd::SddPtr", "cache::all_app::AllIteTable:compl-flag")), ("DT", 7, has("SddPtr", "BottomUpBuilder::or:", "BottomUpBuilder::compose:")),
+        "rules": [("PA", 1, None), ("DI", 0, None), ("DF", 1, has("VTreeManager", "label-tables")), ("TR", 0, has("repr::sdd", "builder::sdd")), ("CP", 28, has("builder::sdd::", "repr::sdd::SddPtr", "cache::all_app::AllIteTable:compl-flag")), ("DT", 7, has("SddPtr", "BottomUpBuilder::or:", "BottomUpBuilder::compose:")),
                   ("IM", 14, has("IM2", "IM3")), ("HE", 4, has("BinarySDD:scratch", "SddOr:scratch", "BinarySDD:fields", "SddOr:fields")),
                   ("ST", 2, None), ("SH", 1, has("SddPtr> for T>::condition")), ("SA", 10, None), ("VX", 11, None),
                   ("VO", 1, vo_sel("::sdd::", only_label_order=True)),
